@@ -17,6 +17,10 @@ var specialFloats = []float64{
 	0x1p63, -0x1p63, 0x1p64, -0x1p64, 0x1p127, -0x1p127, 0x1p128, -0x1p128, 0x1p53, -0x1p53, 0x1p52, 1, -1, 0.5, -0.5,
 	math.MaxFloat64, -math.MaxFloat64, math.SmallestNonzeroFloat64, -math.SmallestNonzeroFloat64,
 	0x1p-1022, 0x1p-1023, 1.5, -1.5, 2.5, 3.5, 0x1p32, 0x1p31,
+	// decimal landmarks between the binary range bounds, and the bounds written in decimal
+	1e18, 1e19, 1e20, 1e38, 1e39, -1e19, -1e38, -1e39, 9.223372036854776e18, 1.8446744073709552e19, 1.7014118346046923e38,
+	3.4028236692093846e38, 0.9999999999999999, -0.9999999999999999, 1.0000000000000002, 4503599627370495.5, -4503599627370495.5,
+	9007199254740991, 9007199254740993, 1e15 + 0.5, 0x1p-1074, 0x1.fffffffffffffp1023,
 }
 
 func genFloatBits(r *hx.Rng) uint64 {
@@ -24,7 +28,14 @@ func genFloatBits(r *hx.Rng) uint64 {
 	if r.Bool() {
 		sign = 1 << 63
 	}
-	switch r.Intn(12) {
+	switch r.Intn(14) {
+	case 12: // powers of ten and their float neighbours (decimal magnitudes between the binary bounds)
+		b := math.Float64bits(math.Pow(10, float64(r.Range(-5, 41))))
+		return uint64(int64(b)+int64(r.Range(-2, 2))) | sign
+	case 13: // an integer plus or minus one half (truncation toward zero), at every magnitude below 2^53
+		k := uint(r.Range(0, 52))
+		f := float64(uint64(1)<<k+uint64(r.Intn(5))) - 2 + hx.Pick(r, []float64{0.5, -0.5, 0.25, 0.75, 0})
+		return (math.Float64bits(f) &^ (1 << 63)) | sign
 	case 0, 1: // power of two and its neighbours over the whole exponent range
 		k := r.Range(-1080, 1030)
 		b := math.Float64bits(math.Ldexp(1, k))
@@ -105,8 +116,21 @@ func genWord(r *hx.Rng) uint64 {
 	case 6:
 		return uint64(r.Intn(16))
 	default:
+		if r.Chance(1, 3) {
+			return hx.Pick(r, []uint64{1, math.MaxUint64 - 1, 1<<63 + 1, 1<<63 - 2, 1 << 32, 1<<32 - 1, 1<<32 + 1, 1<<31 - 1, 1 << 31,
+				1<<62 + 1, math.MaxUint64 / 2, math.MaxUint64/2 + 1, 1<<53 - 1, 1 << 53, 1<<53 + 1, pow10u(r.Intn(20)), pow10u(r.Intn(20)) - 1,
+				pow10u(r.Intn(20)) + 1})
+		}
 		return r.U64()
 	}
+}
+
+func pow10u(k int) uint64 {
+	v := uint64(1)
+	for i := 0; i < k; i++ {
+		v *= 10
+	}
+	return v
 }
 
 var (
@@ -124,7 +148,23 @@ func bigToPair(b *big.Int) (hi, lo uint64) {
 }
 
 func genPair(r *hx.Rng) (hi, lo uint64) {
-	switch r.Intn(12) {
+	switch r.Intn(15) {
+	case 12: // powers of ten and their neighbours, both signs
+		b := new(big.Int).Exp(big.NewInt(10), big.NewInt(int64(r.Intn(40))), nil)
+		b.Add(b, big.NewInt(int64(r.Range(-1, 1))))
+		if r.Bool() {
+			b.Neg(b)
+		}
+		return bigToPair(b)
+	case 13: // the high word is all zeros or all ones, the low word is anything: its top bit agrees or disagrees with hi
+		return hx.Pick(r, []uint64{0, math.MaxUint64}), hx.Pick(r, []uint64{genWord(r), r.U64(), r.U64() | 1<<63, r.U64() >> 1})
+	case 14: // exactly ±2^63, ±2^64 and the values one away from them
+		b := new(big.Int).Lsh(one, uint(63+r.Intn(2)))
+		b.Add(b, big.NewInt(int64(r.Range(-1, 1))))
+		if r.Bool() {
+			b.Neg(b)
+		}
+		return bigToPair(b)
 	case 0:
 		return 0, genWord(r)
 	case 1:
@@ -195,7 +235,33 @@ func genPair(r *hx.Rng) (hi, lo uint64) {
 }
 
 func genBig(r *hx.Rng) *big.Int {
-	switch r.Intn(8) {
+	switch r.Intn(10) {
+	case 8: // exactly k words: the smallest and the largest value with k 64-bit (or 2k 32-bit) words
+		k := uint(hx.Pick(r, []int{1, 2, 3, 4, 5, 6, 8, 9, 16, 17, 32, 33, 64, 65, 2, 3, 4, 5}))
+		if r.Chance(1, 30) {
+			k = 1000
+		}
+		var b *big.Int
+		switch r.Intn(3) {
+		case 0:
+			b = new(big.Int).Lsh(one, 64*(k-1))
+		case 1:
+			b = new(big.Int).Sub(new(big.Int).Lsh(one, 64*k), one)
+		default:
+			b = new(big.Int).Lsh(one, 64*k-32) // an odd number of 32-bit words
+			b.Add(b, big.NewInt(int64(r.Range(-1, 1))))
+		}
+		if r.Bool() {
+			b.Neg(b)
+		}
+		return b
+	case 9: // powers of ten around the decimal length of the bounds
+		b := new(big.Int).Exp(big.NewInt(10), big.NewInt(int64(r.Range(17, 45))), nil)
+		b.Add(b, big.NewInt(int64(r.Range(-1, 1))))
+		if r.Bool() {
+			b.Neg(b)
+		}
+		return b
 	case 0: // around word boundaries and type bounds
 		k := hx.Pick(r, []uint{0, 1, 63, 64, 65, 127, 128, 129, 191, 192, 193, 255, 256, 257, 320})
 		b := new(big.Int).Lsh(one, k)
@@ -243,10 +309,60 @@ func signStr(r *hx.Rng) string { return hx.Pick(r, []string{"", "", "", "-", "-"
 
 func genInteger(r *hx.Rng) *big.Int {
 	b := genBig(r)
+	if n := b.BitLen(); n > 4500 && !r.Chance(1, 20) {
+		b.Rsh(b, uint(n-4500+r.Intn(64))) // very long texts are kept, but rare (the scanners are quadratic in the length)
+	}
 	return b.Abs(b)
 }
 
+// digit counts around the thresholds of the scanners (19 / 16 digits per 64-bit word, 9 / 8 per 32-bit word), of the
+// types (39 / 40 decimal, 32 / 33 hexadecimal, 128 / 129 binary digits) and of typical fast paths
+var digitCounts = []int{1, 8, 9, 10, 12, 16, 17, 18, 19, 20, 21, 32, 33, 38, 39, 40, 43, 64, 65, 128, 129, 256, 257, 1000, 1025}
+
+func genLongLiteral(r *hx.Rng) string {
+	n := hx.Pick(r, digitCounts)
+	if r.Chance(1, 60) {
+		n = 5000
+	}
+	base, pfx, digits := 10, "", "0123456789"
+	switch r.Intn(5) {
+	case 0:
+		base, pfx, digits = 16, hx.Pick(r, []string{"0x", "0X"}), hx.Pick(r, []string{"0123456789abcdef", "0123456789ABCDEF", "0123456789abcdf"})
+	case 1:
+		base, pfx, digits = 2, hx.Pick(r, []string{"0b", "0B"}), "01"
+	case 2:
+		base, pfx, digits = 8, hx.Pick(r, []string{"0o", "0O", "0"}), "01234567"
+	}
+	_ = base
+	var sb strings.Builder
+	zeros := 0
+	if r.Chance(1, 3) {
+		zeros = r.Intn(n) // leading zeros: the value is small, the text is long
+	}
+	for i := 0; i < n; i++ {
+		c := digits[r.Intn(len(digits))]
+		if i < zeros || (i == 0 && pfx == "" && c == '0') {
+			c = '0'
+			if pfx == "" {
+				c = '1' // a decimal literal must not start with 0
+			}
+		}
+		if i > 0 && r.Chance(1, 40) {
+			sb.WriteByte('_')
+		}
+		sb.WriteByte(c)
+	}
+	t := signStr(r) + pfx + sb.String()
+	if pfx == "" && r.Chance(1, 4) {
+		t += hx.Pick(r, []string{"e0", "e1", "E+2", "e-1", "e-0"})
+	}
+	return t
+}
+
 func genValidText(r *hx.Rng) string {
+	if r.Chance(1, 12) {
+		return genLongLiteral(r)
+	}
 	v := genInteger(r)
 	switch r.Intn(16) {
 	case 0, 1, 2: // plain decimal
@@ -338,8 +454,11 @@ func genValidText(r *hx.Rng) string {
 			return signStr(r) + "0x1p" + e + "e" // not valid: nothing may follow the exponent
 		}
 		return signStr(r) + m + "e" + e
-	default: // fraction syntax (must be rejected) whose numerator contains an e
-		return signStr(r) + "0x" + v.Text(16) + "e/" + hx.Pick(r, []string{"1", "2", "0x1e", "0", "-1", "1e0"})
+	default: // fraction syntax (must be rejected) whose numerator or denominator contains an e / E
+		num := hx.Pick(r, []string{"0x" + v.Text(16) + "e", "0X" + strings.ToUpper(v.Text(16)) + "E", v.Text(10) + "e0", v.Text(10) + "E2",
+			"0b" + v.Text(2) + "e1", "0xe", "1e2", "0x1e", v.Text(10)})
+		den := hx.Pick(r, []string{"1", "2", "0x1e", "0", "-1", "1e0", "0xe", "1E0", "10", "0x1", "1e-0", "+1"})
+		return signStr(r) + num + "/" + den
 	}
 }
 
@@ -395,6 +514,8 @@ var fixedTexts = []string{
 	"170141183460469231731687303715884105727", "170141183460469231731687303715884105728",
 	"-170141183460469231731687303715884105728", "-170141183460469231731687303715884105729", "-1", "1p3", "0x1p3", "Inf", "NaN",
 	"1e-0", "10e-1", "15e-1", "0.5e1", "0.05e1", "1.0", "1.", "0xe", "0XE", "0Xe_e", "e5", "-e5", "1 e5", "1e5 ", "1e 5",
+	"0xe/0xe", "0xE/1", "-0x1e/1", "0x1e/2", "1e2/1", "1e2/1e0", "2/1e0", "0b1e1/1", "0xe/", "/0xe", "0xe//1", "1e0/0", "e/e", "1/e",
+	"null", "true", "nil", "0n", "1L", "1u", "1ULL", "0d10", "٣", "１２", "1,000", "1'000", "1 000",
 }
 
 func genText(r *hx.Rng) string {
@@ -445,11 +566,20 @@ func (conv) Gen(r *hx.Rng, n int, _ string, emit func(string)) {
 			hi, lo := genPair(r)
 			emit(ty + " narrow " + pair(hi, lo))
 		default:
-			op := "from64"
-			if ty == "i" && r.Bool() {
-				op = "fromu64"
+			switch r.Intn(4) {
+			case 0:
+				hi, lo := genPair(r)
+				emit(ty + " comps " + pair(hi, lo))
+			case 1:
+				hi, lo := genPair(r)
+				emit("i abs " + pair(hi, lo))
+			default:
+				op := "from64"
+				if ty == "i" && r.Bool() {
+					op = "fromu64"
+				}
+				emit(fmt.Sprintf("%s %s %016x", ty, op, genWord(r)))
 			}
-			emit(fmt.Sprintf("%s %s %016x", ty, op, genWord(r)))
 		}
 	}
 }
